@@ -207,9 +207,11 @@ def h_static(ctx, d, N, F, types):
     _clear_records(ctx)
     tmp = ctx.tmpdir()
     f1, f2 = os.path.join(tmp, "gr.csv"), os.path.join(tmp, "sq.csv")
-    g1 = g.gr(S, ppp=ppp, rdelta=delta, outputfile=f1).getresults()
+    gobj = g.gr(S, ppp=ppp, rdelta=delta, outputfile=f1)
+    g1 = gobj.getresults()
     written_equals(ctx, "g(r)", "csv", f1, g1)
-    s1 = sq.sq(S, qvector=qv, outputfile=f2).getresults()
+    sobj = sq.sq(S, qvector=qv, outputfile=f2)
+    s1 = sobj.getresults()
     written_equals(ctx, "S(q)", "csv", f2, s1)
     # integer-valued wave vectors held in a float64 array (as np.loadtxt returns them): the caller's array, used twice
     qf = qv.astype(np.float64)
@@ -223,6 +225,9 @@ def h_static(ctx, d, N, F, types):
     ctx.output("gr", np.asarray(g1["gr"].values))
     same(ctx, "g(r) after S(q) and conditional g(r)", g1, g2)
     same(ctx, "S(q) after g(r)", s1, s2)
+    # the same analysis objects asked a second time (their own state must not have been altered by the first answer)
+    same(ctx, "g(r): second getresults() of one object", g1, gobj.getresults())
+    same(ctx, "S(q): second getresults() of one object", s1, sobj.getresults())
     same(ctx, "conditional g(r)", c1, c2)
     same(ctx, "conditional S(q)", k1, k2)
     ctx.check_unchanged("frame")
